@@ -1,6 +1,6 @@
 //! C03: the time -> position map (TimeScale) and the timing metadata of timelines.
 
-use crate::desc::*;
+use mv_core::desc::*;
 use mina::prelude::*;
 use mina::TimeScale;
 use mina_core::time_scale::TimeScalePosition;
